@@ -43,6 +43,8 @@ structure Invoke where
   docId : Nat
   autoforward : Bool
   finalize : Nat
+  /-- the `id` attribute (`[]` = absent: the id is generated from `idlocation`'s counter) -/
+  id : Str := []
   deriving Repr, DecidableEq, Inhabited
 
 structure State where
@@ -583,12 +585,15 @@ def finalizeList (d : Doc) (s : Sess σ) (e : Event) : List Nat :=
   | some c => (((getState d c.state).invokes.filter (·.docId == c.invDoc)).map (·.finalize))
   | none => []
 
-/-- invoke ids the event is forwarded to (as coded: one entry per autoforward `<invoke>` of the
-    sender's invoking state, each naming the *sender's* invoke id) -/
-def forwardList (d : Doc) (s : Sess σ) (e : Event) : List Str :=
-  match childOf s e, e.invokeId with
-  | some c, some iid => ((getState d c.state).invokes.filter (·.autoforward)).map (fun _ => iid)
-  | _, _ => []
+/-- does the invocation `c` (its `<invoke>` element: state `c.state`, document id `c.invDoc`) have
+    `autoforward`? -/
+def childAutoforward (d : Doc) (c : Child) : Bool :=
+  ((getState d c.state).invokes.filter (·.docId == c.invDoc)).any (·.autoforward)
+
+/-- invoke ids the event is forwarded to: every registered invocation with `autoforward` (the
+    code walks its `HashMap` of child sessions and sorts the ids) -/
+def forwardList (d : Doc) (s : Sess σ) (_e : Event) : List Str :=
+  (s.children.filter (childAutoforward d)).map (·.invokeId)
 
 def forwardOne (e : Event) (s : Sess σ) (iid : Str) : Sess σ :=
   if s.children.any (·.invokeId == iid) then s.emit [.forward iid e.name] else s
